@@ -31,11 +31,18 @@ Definition set_group (st : store) (gi : N) (g : list comment) : store :=
 Definition clear_doc (st : store) (node : N) : store :=
   {| st_groups := st_groups st; st_docs := List.filter (fun p => negb (fst p =? node)) (st_docs st) |}.
 
-(** GetDocCommentOn: first node of the chain whose Doc pointer is non-nil *)
-Fixpoint get_doc (st : store) (chain : list N) : option (N * N) :=
+(** GetDocCommentOn: walks the enclosing nodes innermost first; a Field (method
+    or struct field) owns only its own doc and stops the walk; GenDecl, FuncDecl
+    and TypeSpec are taken when their Doc pointer is non-nil; the File's package
+    doc is never anybody's doc comment. *)
+Fixpoint get_doc (st : store) (chain : list (N * str)) : option (N * N) :=
   match chain with
   | [] => None
-  | n :: chain' => match doc_of st n with Some gi => Some (n, gi) | None => get_doc st chain' end
+  | (n, kind) :: chain' =>
+      if str_eqb kind (s2b "file") then get_doc st chain'
+      else if str_eqb kind (s2b "field") then
+        match doc_of st n with Some gi => Some (n, gi) | None => None end
+      else match doc_of st n with Some gi => Some (n, gi) | None => get_doc st chain' end
   end.
 
 (** the cleanUp closure: clears the node's Doc pointer when the group is empty *)
